@@ -70,7 +70,15 @@ LOOSEST = {"NNDVI.alpha": [1.0, 0.9], "KdqTreeBatch.alpha": [1.0, 0.99, 0.9], "K
 
 def draw_values(fam, rng, k):
     lo, hi, logu, strict, bound = RANGES[fam]
-    if logu:
+    if rng.random() < 0.4:
+        # settings close to each other (within a factor of about 2.5 / a tenth of the range): small inversions show
+        if logu:
+            c_ = np.exp(rng.uniform(np.log(lo) + 0.5, np.log(hi) - 0.5)) if np.log(hi) - np.log(lo) > 1.2 else np.sqrt(lo * hi)
+            v = np.clip(c_ * np.exp(rng.uniform(-0.45, 0.45, size=k)), lo, hi)
+        else:
+            c_ = rng.uniform(lo, hi)
+            v = np.clip(c_ + rng.uniform(-0.05, 0.05, size=k) * (hi - lo), lo, hi)
+    elif logu:
         v = np.exp(rng.uniform(np.log(lo), np.log(hi), size=k))
     else:
         v = rng.uniform(lo, hi, size=k)
@@ -192,6 +200,19 @@ def run_case(case, ctx):
         items = [v - lo + 1.0 for v in items]
     key = case.get("seed_key", case["id"])
     traces = []
+    if case["kind"] == "drift" and case["seed"][-1] % 3 == 0:
+        # other detectors of the class have been at work in the process before, at the same levels but configured differently in
+        # everything else (whatever a class remembers across objects must not leak into these runs)
+        other = base_params(det, gen.rng_for(case["seed"], fam, "bystander"), fam)
+        for k_, v_ in list(other.items()):
+            if isinstance(v_, bool):
+                other[k_] = not p0.get(k_, v_)
+        for v in values[:: 2]:  # at some of the levels only: a leak then treats the levels unequally
+            try:
+                run_trace(det, dict(other, **{pname: v}), items, key)
+            except Exception:
+                break  # the other configuration is only a bystander
+        ctx.count("cases_after_differently_configured_bystanders")
     for v in values:
         p = dict(p0)
         p[pname] = v
